@@ -21,6 +21,7 @@ RULE = (
     "linking and negation, or 'reject' (any SigmaError subclass). Non-trivial = chain length >= 2 or "
     "a value with a special character."
 )
+RULE += (" Seeds and random values include long placeholder names (33-300 characters), values of 100+ characters and lists of 23-40 values.")
 ASSUMPTIONS = [
     "vf/ref/modifiers.py is the modifier table of the Sigma specification as documented by pySigma",
     "ambiguous adjacencies are excluded and counted: backslash run before '%', backslash in a "
@@ -33,7 +34,10 @@ SEEDS = ["", "a", "aB", "a*", "*a", "*a*", "a?b", "a\\*b", "a\\\\*", "a\\b", "a\
          "\\%x%", "50%", "%%", "-a", "a -b/c", "a-b", "/x -y", "*-a", "-*", "é–", "-é", "_-a", "10.0.0.0/8",
          "::1/128", "10.0.0.1/8", "a.*", "^a$", "(", "a|b", ".*a.*", "field name", "a%x", "%x%*%y%",
          0, 5, -1, 1.5, 2.0, True, False, None, ["a", "b*"], [1, 2], ["a", 1, None], [], ["-a", "/b"],
-         ["%x%", "c"]]
+         ["%x%", "c"],
+         # sizes beyond the small ones: long placeholder names, long values, long lists
+         "%" + "p" * 33 + "%", "a%" + "long_placeholder_name_" * 4 + "%b", "x" * 100 + "-y", "%" + "q" * 300 + "%*",
+         [f"v{i}" for i in range(40)], ["-a"] * 3 + ["b-c"] * 20]
 
 
 def conv(v):
@@ -205,7 +209,7 @@ def random_cases(draw):
                               ["contains", "neq"], ["gt"], ["minute", "gte"], ["exists"], ["utf16", "base64"],
                               ["re", "contains"], ["re", "expand"], ["all", "contains", "windash"]])
     chain = draw(st.one_of(common, st.lists(st.sampled_from(MODS), min_size=n, max_size=n)))
-    sval = st.lists(st.sampled_from(ALPHA), max_size=6).map("".join)
+    sval = st.lists(st.sampled_from(ALPHA + ["n" * 40, "m" * 70, "%" + "k" * 70 + "%"]), max_size=6).map("".join)
     scalar = st.one_of(sval, sval, st.sampled_from(SEEDS[:36]), st.integers(-3, 70), st.floats(allow_nan=True, allow_infinity=True, width=32),
                        st.booleans(), st.none())
     value = draw(st.one_of(scalar, scalar, st.lists(scalar, max_size=3)))
